@@ -245,9 +245,69 @@ def interleaved_case(ctx, case):
     ctx.nt('il', repr(case))
 
 
+def stalled_peer_case(ctx, case):
+    """'Encoding any integer terminates' - also while ANOTHER stream's write
+    is stalled (its peer does not read): one thread sits in send() on a
+    stream that blocks, a second thread encodes into its own buffer and must
+    return.  case {type, n, other_type, m}"""
+    import threading
+    T = _types()[case['type']][0]
+    U = _types()[case['other_type']][0]
+    ctx.ev()
+    release = threading.Event()
+    entered = threading.Event()
+
+    class Stalled(object):
+        def __init__(self):
+            self.data = b''
+
+        def send(self, b):
+            entered.set()
+            release.wait(20)
+            self.data += bytes(b)
+    stalled = Stalled()
+    ta = threading.Thread(target=lambda: U.send(case['m'], stalled),
+                          daemon=True)
+    ta.start()
+    if not entered.wait(5):
+        release.set()
+        from vlib.core import HarnessError
+        raise HarnessError('C03 stalled_peer: the stalled writer never '
+                           'reached send()')
+    sink = Sink()
+    res = {}
+
+    def b():
+        try:
+            T.send(case['n'], sink)
+            res['ok'] = True
+        except Exception as e:
+            res['exc'] = e
+    tb = threading.Thread(target=b, daemon=True)
+    tb.start()
+    tb.join(5)
+    blocked = tb.is_alive()
+    release.set()
+    ta.join(5)
+    tb.join(5)
+    if blocked:
+        ctx.fail('stalled_peer', 'S2-terminates', case,
+                 'encoding into a private buffer did not return within 5 s '
+                 'while another stream was stalled in send()', 'returns')
+        return
+    if 'exc' in res or sink.value != wire.varint(case['n']) or \
+            stalled.data != wire.varint(case['m']):
+        ctx.fail('stalled_peer', 'S1-canonical', case,
+                 (sink.value.hex(), stalled.data.hex()),
+                 (wire.varint(case['n']).hex(), wire.varint(case['m']).hex()))
+        return
+    ctx.nt('stalled', repr(case))
+
+
 COMPONENTS = {'decode': decode_case, 'encode': encode_case,
               'fuzz_decode': fuzz_decode_case,
-              'interleaved': interleaved_case}
+              'interleaved': interleaved_case,
+              'stalled_peer': stalled_peer_case}
 
 
 # ------------------------------------------------------------------- tasks
@@ -361,6 +421,15 @@ def t_fuzz(ctx, runs):
         b'\x00\x80\x80\x80\x80\x80\x80', b'\x01' + b'\xff' * 11])
 
 
+def t_stalled_peer(ctx):
+    for t, n in (('VarInt', 300), ('VarLong', 2 ** 40), ('VarInt', 0)):
+        for u, m in (('VarInt', 5), ('VarLong', 2 ** 63)):
+            stalled_peer_case(ctx, {'type': t, 'n': n, 'other_type': u,
+                                    'm': m})
+    ctx.exhaustive_done('encoding next to a stalled writer: 3 x 2 type/value '
+                        'pairs')
+
+
 def t_interleaved(ctx):
     vals = [0, 1, 127, 128, 300, 16383, 16384, 2 ** 31 - 1]
     specs = [(op, tn, n) for op in ('send', 'read', 'size')
@@ -383,7 +452,8 @@ def t_interleaved(ctx):
 
 def tasks(tier):
     q = tier == 'quick'
-    tl = [('interleaved', t_interleaved, {})]
+    tl = [('interleaved', t_interleaved, {}),
+          ('stalled_peer', t_stalled_peer, {})]
     if not q:
         tl.append(('fuzz_empty_corpus', t_fuzz, dict(runs=1500000)))
     maxlen = 2 if q else 3
